@@ -20,13 +20,19 @@ def quiet_solve(pep, **kw):
     """solve with an accurate solver; returns value or None; SolverError -> 'inconclusive'"""
     kw.setdefault("verbose", 0)
     buf = io.StringIO()
+    def accurate(v):
+        # PEPit passes on whatever the solver returns; a status other than "optimal" (e.g. SCS "optimal_inaccurate" after
+        # max_iters on an ill-conditioned logdet problem: primal residual 24) is a failure of the SOLVER: inconclusive
+        prob = getattr(getattr(pep, "wrapper", None), "prob", None)
+        st = getattr(prob, "status", "optimal")
+        return v if (v is None or st == "optimal") else "inconclusive"
     with contextlib.redirect_stdout(buf):
         try:
-            return pep.solve(solver=SOLVER, **kw)
+            return accurate(pep.solve(solver=SOLVER, **kw))
         except Exception as ex:
             if type(ex).__name__ in ("SolverError",):
                 try:
-                    return pep.solve(solver="SCS", eps=1e-8, **kw)
+                    return accurate(pep.solve(solver="SCS", eps=1e-8, **kw))
                 except Exception:
                     return "inconclusive"
             raise
